@@ -35,6 +35,9 @@ type Case struct {
 	TT    int      `json:"tt"`
 	Steps []Step   `json:"steps"`
 	Load  bool     `json:"load"`
+	// Other: sizes an unrelated fourth engine instance in the same process is created with / resized to
+	// around each move (0 = leave it alone); it also searches. It must not influence A, A' or B.
+	Other []int `json:"other,omitempty"`
 }
 
 func opts(st Step) []search.Option {
@@ -96,7 +99,13 @@ func checkCase(c Case, rec *evid.Rec) (err error) {
 	}
 	bA2, _, _ := mkBoard(c)
 	bB, _, _ := mkBoard(c)
-	sA, sA2, sB := search.New(c.TT), search.New(c.TT), search.New(c.TT)
+	sA, sA2 := search.New(c.TT), search.New(c.TT)
+	var sX *search.Search
+	if len(c.Other) > 0 && c.Other[0] > 0 {
+		sX = search.New(c.Other[0])
+	}
+	sB := search.New(c.TT)
+	bX, _, _ := mkBoard(c)
 
 	// machine load while A and A' run concurrently
 	var stop atomic.Bool
@@ -146,6 +155,19 @@ func checkCase(c Case, rec *evid.Rec) (err error) {
 		if endedSoft {
 			stB = Step{Depth: st.Depth, Soft: 0, Hard: rA.Nodes}
 		}
+		if i+1 < len(c.Other) && c.Other[i+1] > 0 {
+			// the unrelated instance is resized and searches between A's search and B's replay
+			if sX == nil {
+				sX = search.New(c.Other[i+1])
+			} else {
+				sX.ResizeTT(c.Other[i+1])
+				sX.Clear()
+			}
+			srch.Run(sX, bX, true, search.WithDepth(3), search.WithNodes(300))
+			if rec != nil {
+				rec.Class("unrelated_instance_resized_between_searches")
+			}
+		}
 		rB := srch.Run(sB, bB, false, opts(stB)...)
 		if rB.Nodes > max(stB.Hard, 0) && stB.Hard >= 0 {
 			return fmt.Errorf("%s: replay spent %d nodes with a hard budget of %d", where, rB.Nodes, stB.Hard)
@@ -193,7 +215,7 @@ func checkCase(c Case, rec *evid.Rec) (err error) {
 
 func TestC08(t *testing.T) {
 	evid.Main(t, "C08", func(rec *evid.Rec) {
-		rec.Rule("whole games (root + playout history, then up to 24 (quick) / 60 (thorough) engine moves) with drawn per-move limits (depth 1..10, soft nodes, hard nodes); three engine instances per game whose tables carry over: A and A' get identical requests and run CONCURRENTLY on separate goroutines while GOMAXPROCS busy goroutines load the machine (thorough: race detector on); B gets WithNodes(N_A) whenever A's search ended at its soft limit after N_A nodes, otherwise the same request. Oracle: A == A' in score, move, ponder, node count and every info line (time field masked); B == A likewise (its single trailing abort line excepted) on this and all later moves; Counters.Nodes <= hard budget always. The replay clause is judged only when A returned a move. Non-trivial = search on a warmed table with > 500 nodes; distinct by (game prefix, table, limits)")
+		rec.Rule("whole games (root + playout history, then up to 24 (quick) / 60 (thorough) engine moves) with drawn per-move limits (depth 1..10, soft nodes, hard nodes); three engine instances per game whose tables carry over: A and A' get identical requests and run CONCURRENTLY on separate goroutines while GOMAXPROCS busy goroutines load the machine (thorough: race detector on); B gets WithNodes(N_A) whenever A's search ended at its soft limit after N_A nodes, otherwise the same request. Oracle: A == A' in score, move, ponder, node count and every info line (time field masked); B == A likewise (its single trailing abort line excepted) on this and all later moves; Counters.Nodes <= hard budget always; in half of the games an unrelated fourth engine instance with a different table size is created, resized and searched in the same process between A's search and B's replay (results are a function of the engine's OWN state only). The replay clause is judged only when A returned a move. Non-trivial = search on a warmed table with > 500 nodes; distinct by (game prefix, table, limits)")
 		rec.Assume("SoftTime is not used: wall-clock limits are non-deterministic by design and outside this property")
 		rec.Rapid(t, "game", evid.Pick(2500, 8000), func(t *rapid.T) {
 			root, _ := gen.Root(t)
@@ -222,6 +244,12 @@ func TestC08(t *testing.T) {
 					st.Hard = 30000
 				}
 				c.Steps = append(c.Steps, st)
+			}
+			if gen.Chance(t, 1, 2, "other") {
+				sz := []int{0, 0, 32, 3200, 32 * 1024, 1 << 20, 4 << 20}
+				for i := 0; i <= len(c.Steps); i++ {
+					c.Other = append(c.Other, sz[gen.Draw(t, 0, len(sz)-1, "otherSize")])
+				}
 			}
 			if rec.WantSample("game") {
 				rec.Sample("game", c)
